@@ -398,6 +398,11 @@ func (cc *connectUnaryClientConn) validateResponse(response *http.Response) *Err
 			(*connectWireError)(&serverErr),
 			json.Unmarshal,
 		); err == nil {
+			if serverErr.code == 0 {
+				// The body is JSON but doesn't carry a usable error code, so fall
+				// back to the code implied by the HTTP status.
+				serverErr.code = connectHTTPToCode(response.StatusCode)
+			}
 			serverErr.meta = cc.responseHeader.Clone()
 			mergeHeaders(serverErr.meta, cc.responseTrailer)
 			return &serverErr
@@ -703,6 +708,11 @@ func (u *connectStreamingUnmarshaler) Unmarshal(message any) *Error {
 	}
 	u.trailer = end.Trailer
 	u.endStreamErr = (*Error)(end.Error)
+	if u.endStreamErr != nil && u.endStreamErr.code == 0 {
+		// The server reported an error without a usable code. Zero means success
+		// in gRPC, so we must never surface it as an error code.
+		u.endStreamErr.code = CodeUnknown
+	}
 	return errSpecialEnvelope
 }
 
@@ -832,14 +842,16 @@ func (e *connectWireError) UnmarshalJSON(data []byte) error {
 	if err := (&protoJSONCodec{}).Unmarshal(data, &wire); err != nil {
 		return err
 	}
-	if wire.Code == "" {
-		return nil
+	if wire.Code != "" {
+		var code Code
+		if err := code.UnmarshalText([]byte(wire.Code)); err != nil {
+			return err
+		}
+		e.code = code
 	}
-	var code Code
-	if err := code.UnmarshalText([]byte(wire.Code)); err != nil {
-		return err
-	}
-	e.code = code
+	// If the peer didn't send a code (or sent the zero code, which isn't an
+	// error), e.code stays zero. Callers must replace it with a real error code
+	// before handing the error to users.
 	if wire.Message != "" {
 		e.err = errors.New(wire.Message)
 	}
